@@ -349,6 +349,60 @@ def e2e_family():
     return fam
 
 
+# ---- key-timing end to end with long silent gaps (ages saturate at 65535 ticks, documented) ----------
+# (name, [(slot, cmp, threshold, break?)...]): one switch per family, actions 1..n; the thresholds sit on the
+# breakpoints of the documented resolution (255/256, 2303/2304), at the top of the range and at 2^15
+TIMING_FAMS = [
+    ("tlongA", [(1, "lt", 255, False), (1, "lt", 256, False), (1, "lt", 263, False), (1, "gt", 2303, False),
+                (1, "gt", 2304, False), (1, "gt", 2431, False), (1, "lt", 65535, False), (1, "gt", 65535, True)]),
+    ("tlongB", [(1, "lt", 500, False), (1, "gt", 60000, False), (2, "lt", 500, False), (2, "gt", 60000, False),
+                (3, "gt", 32767, False), (3, "lt", 40000, False), (8, "lt", 2304, False), (8, "gt", 1000, True)]),
+]
+
+
+def timing_family():
+    c = cfgdesc.code
+    fam = []
+    for name, cases in TIMING_FAMS:
+        text = "(switch " + " ".join("((key-timing %d %s %d)) %s %s" % (n, w, t, AC_NAMES[i], "break" if b else "fallthrough")
+                                     for i, (n, w, t, b) in enumerate(cases)) + ")"
+        kbd = "(defsrc a b c d)\n(deflayer l0 a b (layer-while-held l1) %s)\n(deflayer l1 _ _ _ _)\n" % text
+        params = {"kind": "switch", "sk": c("d"), "win": 14, "ageoff": 0,
+                  "cases": [{"cond": [{"k": "timing", "n": n - 1, "cmp": w, "t": t}], "ac": c(AC_NAMES[i]), "brk": b}
+                            for i, (n, w, t, b) in enumerate(cases)],
+                  "trig": [], "left": 0, "right": 0, "acs": [c(AC_NAMES[i]) for i in range(len(cases))],
+                  "lk": c("c"), "ll": 1}
+        fam.append((name, kbd, params, cases))
+    return fam
+
+
+def timing_scripts(cases, ages_of, ages_global, sk, win, per_script=10):
+    """One round per (history slot n, age A) with A from the TLC-enumerated ages of the thresholds that the
+    family tests on slot n (+ the global ones): key a is typed, then nothing for a long time (the harness
+    run-length-compresses the silent ticks), then n-1 quick taps of b push a's press to slot n, then the
+    switch key.  Age of slot n when the switch is evaluated = gap + 2(n-1) + 1.  In every second round a
+    stays held through the gap (kanata is not idle: a real keyboard keeps it ticking)."""
+    a, b = cfgdesc.code("a"), cfgdesc.code("b")
+    rounds, seen = [], set()
+    for n in sorted(set(x[0] for x in cases)):
+        ages = list(ages_global)
+        for (n1, _, t, _) in cases:
+            if n1 == n:
+                ages += ages_of[t]
+        for A in ages:
+            gap = A - 2 * (n - 1) - 1
+            if gap < 1 or (n, A) in seen:
+                continue
+            seen.add((n, A))
+            hold = len(rounds) % 2 == 1
+            r = [["d", a], ["t", 1]] + ([] if hold else [["u", a]]) + [["t", gap]]
+            for _ in range(n - 1):
+                r += [["d", b], ["t", 1], ["u", b], ["t", 1]]
+            r += [["d", sk], ["t", win + 3], ["u", sk], ["t", 3]] + ([["u", a], ["t", 3]] if hold else [])
+            rounds.append(r)
+    return [sum(rounds[i:i + per_script], []) for i in range(0, len(rounds), per_script)], len(rounds)
+
+
 def e2e_script(rng, others, sk, win, n_rounds):
     gaps = [3, 4, 10, 17, 18, 19, 20, 21, 22, 30, 47, 48, 49, 50, 51, 52, 60]
     s, down = [], set()
@@ -413,18 +467,21 @@ def run(tier, seed):
     given = gen_given(rng, tier)
     genvs = [rand_env(rng) for _ in range(6 if quick else 10)]
     W = max(6, NCPU)
+    tfam = timing_family()
+    thr_list = sorted(set(t for _, _, _, cases in tfam for (_, _, t, _) in cases))
+    ages_job = lambda: tlc_job(wd, "ages", "ages", 1, 600, given=thr_list, heap="1g")
     if quick:
         plan = [lambda: tlc_job(wd, "exprA", "expr", max(2, W - 7), 600, maxnodes=5, triples=(1, 2, 3, 4, 5, 6), heap="6g"),
                 lambda: tlc_job(wd, "cases", "cases", 2, 600, maxcases=8, maxfull=6, pooln=2),
                 lambda: tlc_job(wd, "thr", "thr", 3, 600, thr=(0, 65535)),
-                lambda: tlc_job(wd, "given", "given", 2, 600, given=[g[0] for g in given], envs=genvs)]
+                lambda: tlc_job(wd, "given", "given", 2, 600, given=[g[0] for g in given], envs=genvs), ages_job]
         plan2 = []
     else:
         plan = [lambda: tlc_job(wd, "exprA", "expr", max(2, W - 8), 3000, maxnodes=6, triples=(1, 2, 3, 4, 5, 6), heap="8g"),
                 lambda: tlc_job(wd, "cases", "cases", 2, 1200, maxcases=8, maxfull=8, pooln=2),
                 lambda: tlc_job(wd, "cases4", "cases", 2, 1200, maxcases=5, maxfull=5, pooln=4),
                 lambda: tlc_job(wd, "thr", "thr", 2, 1200, thr=(0, 65535)),
-                lambda: tlc_job(wd, "given", "given", 2, 3000, given=[g[0] for g in given], envs=genvs, heap="6g")]
+                lambda: tlc_job(wd, "given", "given", 2, 3000, given=[g[0] for g in given], envs=genvs, heap="6g"), ages_job]
         plan2 = [lambda: tlc_job(wd, "exprB", "expr", max(2, W - 4), 6000, maxnodes=7, triples=(3, 1), heap="8g"),
                  lambda: tlc_job(wd, "exprFixed", "expr", 2, 3000, variant="fixed", maxnodes=6, triples=(3,))]
     tl = run_parallel(plan)
@@ -624,6 +681,23 @@ def run(tier, seed):
         n = (6 if quick else 40)
         scripts = [e2e_script(rng, others, params["sk"], params["win"], 4 if quick else 8) for _ in range(n)]
         e2e_jobs.append({"cfg": kbd, "params": params, "tag": name, "scripts": scripts})
+    # key-timing with long silent gaps: the ages come from TLC (MC_Switch mode "ages")
+    ages_of, ages_global = {}, []
+    for t in tl:
+        if t["mode"] == "ages":
+            for line in open(t["cases"]):
+                c = json.loads(line)
+                if c["t"] < 0:
+                    ages_global = c["ages"]
+                else:
+                    ages_of[c["t"]] = c["ages"]
+    if not ages_global or set(ages_of) != set(thr_list):
+        raise ToolError("TLC did not enumerate the ages of all key-timing thresholds")
+    n_long_rounds = 0
+    for name, kbd, params, cases in tfam:
+        scripts, nr = timing_scripts(cases, ages_of, ages_global, params["sk"], params["win"])
+        n_long_rounds += nr
+        e2e_jobs.append({"cfg": kbd, "params": params, "tag": name, "scripts": scripts})
     e2e_jobs = shard_local_index(e2e_jobs)
     outs = run_jobs(e2e_jobs, wd, "c10_e2e")
     trace = concat_traces(outs, os.path.join(wd, "c10_e2e.trace.ndjson"))
@@ -694,7 +768,9 @@ def run(tier, seed):
         "states": sum(t["states"] or 0 for t in tl), "transitions": sum(t["generated"] or 0 for t in tl),
         "tlc_runs": [{k: t[k] for k in ("name", "mode", "variant", "states", "lines", "wall_s")} for t in tl],
         "proposed_fix_model": fixed_run,
-        "e2e": {"configs": len(fam), "scripts": len(e2e_jobs), "switch_or_fork_presses_judged": n_press,
+        "e2e": {"configs": len(fam) + len(tfam), "scripts": len(e2e_jobs), "switch_or_fork_presses_judged": n_press,
+                "key_timing_long_gap_rounds": n_long_rounds,
+                "key_timing_long_gap_ages": {"per_threshold": {str(k): v for k, v in sorted(ages_of.items())}, "global": ages_global},
                 "trace_lines": nlines, "rejected": len(errs), "rejected_known": e2e_known},
         "traces_validated_against_impl": len(e2e_jobs),
         "known_findings_seen": [SIG] if n_known else [],
